@@ -3,16 +3,17 @@
    reachable from d's value may, after some statement, include memory reachable from the values of srcs;
    SBuf is the memory of the buffer being decoded.  The translator (helpers.go) extracts the edges; a statement
    that produces a fresh copy (make, new, string<->[]byte conversion, literals) or a scalar contributes none. *)
-From Coq Require Import List Strings.String Bool Arith.
+From Coq Require Import List NArith Bool Arith.
 Import ListNotations.
 
-Inductive src := SVar (x : string) | SBuf.
-Definition edge : Type := string * list src.
+Definition node := N.          (* nodes are numbered by the translator; Gen/Helpers.v keeps the names *)
+Inductive src := SVar (x : node) | SBuf.
+Definition edge : Type := node * list src.
 
 (* ---- concrete meaning: which regions a variable's value can reach ---- *)
 (* memory is divided into regions; region 0 is the backing array of the buffer being decoded *)
 Definition region := nat.
-Definition store := string -> list region.
+Definition store := node -> list region.
 
 Definition eval (st : store) (s : src) : list region :=
   match s with SVar x => st x | SBuf => [0] end.
@@ -35,16 +36,19 @@ Section Meaning.
 End Meaning.
 
 (* ---- the analysis: a set of nodes closed under the edges ---- *)
-Definition mem (x : string) (t : list string) : bool := existsb (String.eqb x) t.
+Definition mem (x : node) (t : list node) : bool := existsb (N.eqb x) t.
 (* [bufhot]: is the buffer's memory marked? *)
-Definition src_in (bufhot : bool) (t : list string) (s : src) : bool := match s with SVar x => mem x t | SBuf => bufhot end.
+Definition src_in (bufhot : bool) (t : list node) (s : src) : bool := match s with SVar x => mem x t | SBuf => bufhot end.
 (* t contains every node that has a source in t (or the marked buffer) *)
-Definition closedb (bufhot : bool) (g : list edge) (t : list string) : bool :=
+Definition closedb (bufhot : bool) (g : list edge) (t : list node) : bool :=
   forallb (fun e => negb (existsb (src_in bufhot t) (snd e)) || mem (fst e) t) g.
 
 (* least such set above the seeds, by iteration (used to compute t; the result is CHECKED by closedb, not trusted) *)
-Definition grow (bufhot : bool) (g : list edge) (t : list string) : list string :=
+Definition grow (bufhot : bool) (g : list edge) (t : list node) : list node :=
   fold_left (fun acc e => if existsb (src_in bufhot acc) (snd e) && negb (mem (fst e) acc) then fst e :: acc else acc) g t.
-Fixpoint iter (n : nat) (bufhot : bool) (g : list edge) (t : list string) : list string :=
-  match n with O => t | S k => iter k bufhot g (grow bufhot g t) end.
-Definition taint (bufhot : bool) (seeds : list string) (g : list edge) : list string := iter (S (List.length g)) bufhot g seeds.
+Fixpoint iter (n : nat) (bufhot : bool) (g : list edge) (t : list node) : list node :=
+  match n with
+  | O => t
+  | S k => let t' := grow bufhot g t in if Nat.eqb (List.length t') (List.length t) then t else iter k bufhot g t'
+  end.
+Definition taint (bufhot : bool) (seeds : list node) (g : list edge) : list node := iter (S (List.length g)) bufhot g seeds.
